@@ -18,7 +18,7 @@ FR = Fraction
 
 
 class Hist:
-    def __init__(self, cid, rng, n=None, max_ops=4, ops=None, total=False, start=None):
+    def __init__(self, cid, rng, n=None, max_ops=4, ops=None, total=False, start=None, export_all=False, scale=None):
         self.id = cid
         self.rng = rng
         self.steps = []
@@ -30,8 +30,16 @@ class Hist:
         pool_n = rng.choice([2, 3])
         self.pool = [gen.nonzero_vec(rng, self.n, pzero=0.3) for _ in range(pool_n)]
         self.bias_pool = [FR(0), FR(1), FR(-1), FR(1, 2)]
+        if scale is not None:
+            # large un-normalised predicates: the LP's vertices miss half-spaces by more than the 1e-8 containment tolerance
+            self.pool = [[scale * v * rng.choice([FR(1), FR(7, 3), FR(11, 7)]) for v in a] for a in self.pool]
+            self.bias_pool = [scale * v for v in [FR(0), FR(1), FR(-1), FR(1, 3), FR(5, 7)]]
         self.names = 0
+        self.export_all = export_all
+        self.exports = []         # (result index of export, label of the operation before it)
         self._start(start)
+        if export_all:
+            self.exports.append((self.export("t"), "start"))
         self.ops = ops or ["compose_f_schema", "compose_t_schema", "compose_f_tree", "compose_t_tree", "apply_func", "elim", "elim"]
         for _ in range(rng.randint(2, max_ops)):
             self._op(rng.choice(self.ops))
@@ -110,7 +118,32 @@ class Hist:
         return ts, newm
 
     def _op(self, op):
+        self._op_inner(op)
+        if self.export_all:
+            self.exports.append((self.export("t"), self.word[-1]))
+
+    def _op_inner(self, op):
         rng = self.rng
+        if op == "reduce":
+            self.steps.append({"op": "reduce", "tree": "t"})
+            self.word.append("reduce")
+            return
+        if op == "neg":
+            self.steps.append({"op": "neg", "name": "t", "src": "t"})
+            self.word.append("neg")
+            return
+        if op == "remove_axes":
+            if self.n < 2:
+                self.word.append("noop")
+                return
+            keep = [True] * self.n
+            keep[rng.randrange(self.n)] = False
+            self.steps.append({"op": "remove_axes", "tree": "t", "mask": keep})
+            self.n -= 1
+            self.pool = [[v for v, k in zip(a, keep) if k] for a in self.pool]
+            self.pool = [a if any(a) else [FR(1)] + [FR(0)] * (self.n - 1) for a in self.pool]
+            self.word.append("remove_axes")
+            return
         if op.startswith("compose"):
             prune = op.startswith("compose_t")
             name = self.fresh("g")
@@ -165,5 +198,5 @@ class Hist:
             raise ValueError(op)
 
     def case(self):
-        return {"id": self.id, "steps": self.steps, "checkpoints": self.checkpoints,
+        return {"id": self.id, "steps": self.steps, "checkpoints": self.checkpoints, "exports": self.exports,
                 "meta": {"word": self.word, "in_dim": self.n}}
